@@ -238,27 +238,77 @@ def irgen_wrap(t, x):
     return min(max(x, lo), hi)
 
 
-def differential(ctx, nmod, thorough, seed0):
-    """layer C.  Returns the list of (seed, pass name) pairs worth validating in Coq."""
+CANONICAL = ['Mem2RegPromotor', 'RemoveAddZeroPass', 'ConstantFolder', 'CommonSubexpressionEliminationPass',
+             'TailCallOptimization', 'LoadAfterStorePass', 'DeleteUnusedInstructionsPass', 'CleanPass']
+
+
+class ModSpec:
+    """one module under test: how to (re)build it, how to run it, how to describe it in a replay"""
+
+    def __init__(self, source, gen, make, cfg, fuel):
+        self.source, self.gen, self.make, self.cfg, self.fuel = source, gen, make, cfg, fuel
+
+
+def irgen_spec(c02_gen, seed, size, fe):
+    import irsem_py
+    return ModSpec('irgen', {'source': 'irgen', 'seed': seed, 'size': size, 'features': list(fe)},
+                   lambda: c02_gen.gen(random.Random(seed), size, fe), irsem_py.DEFAULT_CFG, FUEL)
+
+
+def c_spec(c02_csrc, name, src, arch):
+    from ppci.binutils.debuginfo import DebugDb   # noqa: F401  (c_to_ir attaches its own debug db)
+    return ModSpec('c', {'source': 'c', 'name': name, 'arch': arch, 'c_source': src},
+                   lambda: c02_csrc.compile_c(src, arch), c02_csrc.ARCHS[arch], 3000)
+
+
+def spec_from_gen(g):
+    c02_gen = _ppci()[0]
+    import c02_csrc
+    if g.get('source', 'irgen') == 'c':
+        return c_spec(c02_csrc, g.get('name', 'replay'), g['c_source'], g['arch'])
+    return irgen_spec(c02_gen, g['seed'], g['size'], tuple(g['features']))
+
+
+def differential(ctx, nmod, thorough, seed0, nc=None):
+    """layer C: irgen modules (nmod) + the C corpus + nc generated C modules"""
     c02_gen, ir, api, verify_module, print_module, classes = _ppci()
     import irgen
+    import c02_csrc
     names, mult, extras, levels = export_pipeline()
     stats = collections.Counter()
     crashes = collections.Counter()
     feats = c02_gen.FEATS_QUICK
     nontrivial = 0
+    specs = []
     for k in range(nmod):
-        seed = seed0 + k
-        size = 2 + k % 3
         fe = feats if k % 4 else feats + ('undefined', 'rot', 'initref', 'ub', 'floats')
-        m0 = c02_gen.gen(random.Random(seed), size, fe)
+        specs.append(irgen_spec(c02_gen, seed0 + k, 2 + k % 3, fe))
+    archs = sorted(c02_csrc.ARCHS)
+    for name, src in c02_csrc.CORPUS:
+        for arch in archs:
+            specs.append(c_spec(c02_csrc, name, src, arch))
+    if nc is None:
+        nc = 40 if not thorough else 400
+    for k in range(nc):
+        specs.append(c_spec(c02_csrc, 'gen_c_%d' % (seed0 + k), c02_csrc.gen_c(random.Random(seed0 + k)),
+                            archs[k % len(archs)]))
+    for k, sp in enumerate(specs):
+        try:
+            m0 = sp.make()
+        except Exception as ex:   # noqa: BLE001
+            stats['source_not_compiled'] += 1
+            if sp.source == 'c' and not sp.gen['name'].startswith('gen_c_'):
+                ctx.failed_stages.append(('harness', 'corpus source %s does not compile: %s' % (sp.gen['name'], str(ex)[:200])))
+            continue
         text0 = module_text(m0)
-        rng = random.Random(seed * 7 + 1)
+        rng = random.Random(seed0 * 7 + k)
         base = {}
-        for f in m0.functions:
+        funcs = m0.functions if sp.source == 'irgen' else c02_csrc.entries(ir, m0)
+        for f in funcs:
             runs = []
-            for a in arg_vectors(rng, f, irgen, 6):
-                o, ru = c02_gen.run_main(m0, f.name, a, FUEL)
+            vecs = arg_vectors(rng, f, irgen, 6) if sp.source == 'irgen' else c02_csrc.c_arg_vectors(rng, f, 7)
+            for a in vecs:
+                o, ru = c02_gen.run_main(m0, f.name, a, sp.fuel, cfg=sp.cfg)
                 stats['orig_' + ('done' if isinstance(o, OkV) else str(o))] += 1
                 if isinstance(o, OkV) and ru:
                     stats['orig_reads_unwritten_stack'] += 1
@@ -266,69 +316,77 @@ def differential(ctx, nmod, thorough, seed0):
                     runs.append((a, o.v))
             base[f.name] = runs
         trans = [Transform('pass', [n]) for n in PASS_NAMES]
+        if sp.source == 'c':
+            trans += [Transform('pass', list(CANONICAL)), Transform('pass', ['Mem2RegPromotor', 'CleanPass']),
+                      Transform('pass', ['Mem2RegPromotor', 'LoadAfterStorePass', 'DeleteUnusedInstructionsPass',
+                                         'CleanPass']),
+                      Transform('pass', ['Mem2RegPromotor'] + [rng.choice(PASS_NAMES) for _ in range(rng.randint(2, 5))])]
         nseq = 3 if thorough else 1
         for _ in range(nseq):
             trans.append(Transform('pass', [rng.choice(PASS_NAMES) for _ in range(rng.randint(2, 6))]))
-        for lv in (levels if thorough else [levels[1 + k % (len(levels) - 1)]]):
+        for lv in (levels[1:] if thorough else [levels[1 + k % (len(levels) - 1)]]):
             trans.append(Transform('level', lv))
         for tr in trans:
-            m1 = c02_gen.gen(random.Random(seed), size, fe)
+            m1 = sp.make()
+            short = tr.name if tr.kind == 'level' or len(tr.what) == 1 else 'sequence'
+
+            def record(cls, fn, a, exp, actual, after):
+                rec = {'fn': tr.name, 'key': 'diff:%s:%s:%s' % (cls, short, sp.source), 'class': cls, 'function': fn,
+                       'args': a, 'expected': repr(exp), 'actual': actual, 'gen': sp.gen,
+                       'transformation': {'kind': tr.kind, 'what': tr.what},
+                       'module_before': text0, 'module_after': after,
+                       'how_to_replay': 'VERIF_REPO=%s PYTHONPATH=/verif/tools:/verif/tools/gen:/verif/tools/props:%s '
+                                        '/venv/bin/python /verif/tools/props/c02.py --replay <this file>' % (REPO, REPO)}
+                if ctx.violation(rec):
+                    stats['violations'] += 1
+                else:
+                    stats['known_finding_hits'] += 1
             try:
                 tr.apply(m1, classes, api)
-            except Exception as ex:   # noqa: BLE001  (C03 owns crashes)
-                crashes['%s: %s' % (tr.name if tr.kind == 'level' or len(tr.what) == 1 else 'sequence',
-                                    type(ex).__name__)] += 1
+            except Exception as ex:   # noqa: BLE001
+                crashes['%s: %s' % (short, type(ex).__name__)] += 1
                 stats['pass_raised'] += 1
+                record('pass-raised', None, None, 'a transformed module', '%s: %s' % (type(ex).__name__, str(ex)[:200]),
+                       '')
                 continue
             stats['transformed'] += 1
             changed = module_text(m1) != text0
             ran = False
             for fn, runs in base.items():
                 for a, exp in runs:
-                    o1, _ = c02_gen.run_main(m1, fn, a, 4 * FUEL)
+                    o1, _ = c02_gen.run_main(m1, fn, a, 4 * sp.fuel, cfg=sp.cfg)
                     ctx.cov['evaluations'] += 1
                     ran = True
                     if isinstance(o1, OkV) and o1.v == exp:
                         continue
-                    cls = classify(ctx, c02_gen, ir, api, classes, tr, seed, size, fe, fn, a, exp, m1)
-                    rec = {'fn': tr.name, 'key': 'diff:%s:%s' % (cls or '', tr.name if tr.kind == 'level' or
-                                                                 len(tr.what) == 1 else 'sequence'),
-                           'class': cls or 'behaviour-changed', 'function': fn, 'args': a,
-                           'expected': repr(exp), 'actual': repr(o1.v) if isinstance(o1, OkV) else str(o1),
-                           'gen': {'seed': seed, 'size': size, 'features': list(fe)},
-                           'transformation': {'kind': tr.kind, 'what': tr.what},
-                           'module_before': text0, 'module_after': module_text(m1),
-                           'how_to_replay': 'PYTHONPATH=/verif/tools:/verif/tools/gen:/verif/tools/props:%s /venv/bin/python '
-                                            '/verif/tools/props/c02.py --replay <this file>' % REPO}
-                    if ctx.violation(rec):
-                        stats['violations'] += 1
-                    else:
-                        stats['known_finding_hits'] += 1
+                    cls = classify(c02_gen, ir, api, classes, tr, sp, fn, a, exp, m1)
+                    record(cls or 'behaviour-changed', fn, a, exp, repr(o1.v) if isinstance(o1, OkV) else str(o1),
+                           module_text(m1))
                     break
             if changed and ran:
                 nontrivial += 1
-        if k < 3:
-            ctx.note_sample({'seed': seed, 'functions': [f.name for f in m0.functions],
+        if k < 2 or (sp.source == 'c' and k % 37 == 0):
+            ctx.note_sample({'source': sp.source, 'gen': {x: y for x, y in sp.gen.items() if x != 'c_source'},
+                             'functions': [f.name for f in m0.functions],
                              'blocks': sum(len(f.blocks) for f in m0.functions),
                              'instructions': sum(len(b.instructions) for f in m0.functions for b in f.blocks)})
     ctx.cov['distinct_nontrivial'] += nontrivial
-    ctx.cov['stages']['differential'] = {'modules': nmod, 'stats': dict(stats), 'pass_exceptions': dict(crashes)}
-    for name in PASS_NAMES:
-        if sum(v for k2, v in crashes.items() if k2.startswith(name + ':')) > nmod // 2:
-            ctx.failed_stages.append(('harness', '%s raised on more than half of the modules' % name))
+    ctx.cov['stages']['differential'] = {'irgen_modules': nmod, 'c_corpus_modules': len(c02_csrc.CORPUS) * len(archs),
+                                         'c_generated_modules': nc, 'stats': dict(stats),
+                                         'pass_exceptions': dict(crashes)}
     return stats
 
 
-def classify(ctx, c02_gen, ir, api, classes, tr, seed, size, fe, fn, a, exp, m1):
+def classify(c02_gen, ir, api, classes, tr, sp, fn, a, exp, m1):
     """attribute a behaviour difference to a defect owned by another property, or None"""
     d = dangling_operands(m1, ir)
     if d:
         return 'dangling-operand'
     with patched_rem():
-        m2 = c02_gen.gen(random.Random(seed), size, fe)
         try:
+            m2 = sp.make()
             tr.apply(m2, classes, api)
-            o2, _ = c02_gen.run_main(m2, fn, a, 4 * FUEL)
+            o2, _ = c02_gen.run_main(m2, fn, a, 4 * sp.fuel, cfg=sp.cfg)
             if isinstance(o2, OkV) and o2.v == exp:
                 return 'rem-floor-fold'
         except Exception:   # noqa: BLE001
@@ -678,11 +736,13 @@ if __name__ == '__main__':
     if len(sys.argv) == 3 and sys.argv[1] == '--replay':
         rec = json.load(open(sys.argv[2]))
         c02_gen, ir, api, verify_module, print_module, classes = _ppci()
-        g = rec['gen']
+        sp = spec_from_gen(rec['gen'])
         tr = Transform(rec['transformation']['kind'], rec['transformation']['what'])
-        m0 = c02_gen.gen(random.Random(g['seed']), g['size'], tuple(g['features']))
-        m1 = c02_gen.gen(random.Random(g['seed']), g['size'], tuple(g['features']))
+        m0, m1 = sp.make(), sp.make()
         tr.apply(m1, classes, api)
+        if rec.get('function') is None:
+            print('transformation applied without exception')
+            sys.exit(0)
         for m in (m0, m1):
-            o, _ = c02_gen.run_main(m, rec['function'], rec['args'], 4 * FUEL)
+            o, _ = c02_gen.run_main(m, rec['function'], rec['args'], 4 * sp.fuel, cfg=sp.cfg)
             print(o.v if isinstance(o, OkV) else o)
